@@ -23,9 +23,10 @@ def run(ck, ctx):
     ents = [p for p in ("sim::Simulator::new", "sim::Simulator::reset", "sim::Simulator::step_in", "sim::Simulator::run", "sim::Simulator::run_with_limit",
                         "sim::Simulator::step_over", "sim::Simulator::step_out", "sim::device::timer::TimerDevice::new",
                         "<sim::device::timer::TimerDevice as sim::device::ExternalDevice>::poll_interrupt", "<sim::device::timer::TimerDevice as sim::device::ExternalDevice>::io_reset",
-                        "<sim::device::keyboard::BufferedKeyboard as sim::device::ExternalDevice>::io_read", "<sim::device::display::BufferedDisplay as sim::device::ExternalDevice>::io_write")
+                        "<sim::device::keyboard::BufferedKeyboard as sim::device::ExternalDevice>::io_read", "<sim::device::display::BufferedDisplay as sim::device::ExternalDevice>::io_write",
+                        "sim::Simulator::load_obj_file", "sim::Simulator::read_mem", "sim::Simulator::write_mem", "sim::Simulator::call_subroutine")
             if p in F.bodies]
-    ck.floor("C31.1", "entry points", len(ents), 12)
+    ck.floor("C31.1", "entry points", len(ents), 16)
     reach = F.reach(ents, stop={"sim::_os_obj_file::{closure#0}"})
     found = {}
     for p in reach:
@@ -48,6 +49,11 @@ def run(ck, ctx):
                     rows[names[lo]] = (c or "").replace("sim::mem::", "")
         ck.ob("C31.1", "unseeded-arm-only", rows == {"Unseeded": "<() as WordFiller>::generate", "Seeded": "<rand::prelude::StdRng as WordFiller>::generate", "Known": "<u16 as WordFiller>::generate"},
               "WCGenerator::generate dispatch: %s" % rows, "src/sim/mem.rs:%s" % wc.line)
+    # generic uses of the OS-random filler: any call instantiated with `()` as its WordFiller (Word::new_uninit(&mut ()), MemArray::new(&mut ()) ...)
+    unit_inst = sorted(set("%s -> %s" % (p, c) for p, b in F.bodies.items() if not b.light for bi, t, c, _ in b.calls()
+                           if c and t["func"].get("k") == "const" and re.match(r"^\[\(\)[,\]]", t["func"].get("fn_args", "") or "") and ("sim::mem::" in c)
+                           and not c.startswith("<() as sim::mem::WordFiller>")))
+    ck.ob("C31.1", "unit-filler-instantiations", not unit_inst, "calls instantiated with the OS-random filler `()`: %s (none allowed outside the Unseeded arm)" % unit_inst, "src/sim")
     callers_unit = sorted(p for p, b in F.bodies.items() if not b.light and any((c or "") == "<() as sim::mem::WordFiller>::generate" for _, _, c, _ in b.calls()))
     ck.ob("C31.1", "unit-filler-callers", callers_unit == ["<sim::mem::WCGenerator as sim::mem::WordFiller>::generate"], "callers of the OS-random filler: %s" % callers_unit, "src/sim/mem.rs")
     gen = F.bodies.get("sim::mem::MachineInitStrategy::generator")
@@ -103,5 +109,5 @@ def run(ck, ctx):
         ok = all("'generator'" in repr(tg.expr_of_operand(t["args"][0], 6)) for _, t, c, _ in tg.calls() if (c or "").endswith("random_range"))
         n = sum(1 for _, t, c, _ in tg.calls() if (c or "").endswith("random_range"))
         ck.ob("C31.3", "timer-samples-own-rng", ok and n == 2, "both sampling calls draw from self.generator", "src/sim/device/timer.rs:%s" % tg.line)
-    ck.assume("HashMap/HashSet iteration on these paths only feeds order-insensitive consumers (breakpoints.iter().any(pure predicate)); load_obj_file's choice of which unresolved label to name is outside the entry set")
+    ck.assume("HashMap/HashSet iteration on these paths only feeds order-insensitive consumers (breakpoints.iter().any(pure predicate)); load_obj_file is in the entry set; its choice of *which* unresolved external an error names iterates a HashMap and is not claimed")
     ck.assume("rand's StdRng is deterministic for a given seed (trusted dependency)")
